@@ -86,6 +86,7 @@ pm.ensures("minimum", _pm_post)
 cb = contract(CSH + ".combine", params=[("self", T_csh), ("other", T_csh)])
 cb.modifies_fields = ["scores", "plate_ids", "current_index"]
 cb.requires(lambda a: csh_full(a.self) + csh_full(a.other))
+cb.inline = True  # four-line body: executed at call sites (concat); the contract below is proved for it separately
 
 
 def _cb_post(a, ret, st):
@@ -278,3 +279,29 @@ def same_obj_term(x, y):
 
 
 sn.ensures("selection", _sn_post)
+
+
+# ================================================================ ChunkedScoresHolder.concat: every (plate, score) pair of every chunk table exactly once, in order
+# (list length CONCRETE per variant: 1, 2, 3 chunk tables; the tables' contents and lengths are symbolic)
+from pyvc.spec import TPyList
+
+
+def _pairs_concat(res_ids, res_sc, parts):
+    """res = parts[0] ++ parts[1] ++ ... (plate ids and scores alike)"""
+    k = z3.Int("k!pc")
+    out = []
+    off = z3.IntVal(0)
+    for (ids, sc) in parts:
+        n = ids.shape[0]
+        out.append(z3.ForAll([k], z3.Implies(z3.And(k >= 0, k < n), z3.And(z3.Select(res_ids.data, off + k) == z3.Select(ids.data, k),
+                                                                        z3.Select(res_sc.data, off + k) == z3.Select(sc.data, k))), patterns=[z3.Select(ids.data, k)]))
+        off = off + n
+    out.append(z3.And(res_ids.shape[0] == off, res_sc.shape[0] == off))
+    return z3.And(*out)
+
+
+cct = contract(CSH + ".concat", params=[("cls", TClass(CSH)), ("scores_list", TPyList(T_csh))])
+cct.variants = [("chunks%d" % n, [("cls", TClass(CSH)), ("scores_list", TPyList(*[T_csh for _ in range(n)]))]) for n in (1, 2, 3)]
+cct.requires(lambda a: [f for h in a.scores_list.items for f in csh_full(h)])
+cct.ensures("every_pair_of_every_table_once_in_order", lambda a, ret, st: _pairs_concat(
+    ret.fields["plate_ids"], ret.fields["scores"], [(h.plate_ids, h.scores) for h in a.old.scores_list]))  # entry snapshot of the list = tuple of field snapshots
